@@ -25,8 +25,12 @@ def main():
         res = {"applies": r.returncode == 0, "alarms": []}
         if r.returncode == 0:
             try:
-                for c in checks:
-                    out = subprocess.run([os.path.join(HERE, "check"), c], cwd=HERE, capture_output=True, text=True, env=env)
+                # the first check extracts the facts; the others then run side by side on the cached facts
+                first = subprocess.run([os.path.join(HERE, "check"), checks[0]], cwd=HERE, capture_output=True, text=True, env=env)
+                from concurrent.futures import ThreadPoolExecutor
+                with ThreadPoolExecutor(int(os.environ.get("MATRIX_JOBS", "8"))) as ex:
+                    outs = [first] + list(ex.map(lambda c: subprocess.run([os.path.join(HERE, "check"), c], cwd=HERE, capture_output=True, text=True, env=env), checks[1:]))
+                for c, out in zip(checks, outs):
                     keys = re.findall(r"^    key : (.*)$", out.stdout, re.M)
                     if out.returncode != 0:
                         res["alarms"].append({"check": c, "keys": keys[:8], "tail": out.stdout[-400:] if not keys else ""})
